@@ -247,7 +247,8 @@ def search(ctx, deep):
                     continue
                 break
     # batch size: a long batch (longer than any internal block; lengths just above powers of two) gives row i the value
-    # the same row gets in a short batch
+    # the same row gets in a short batch (to 1e-12 relative: a vectorised implementation may round the last bit differently
+    # in differently shaped batches)
     for fam in B.FAMS:
         th = B.theta_grid(fam)[len(B.theta_grid(fam)) // 2] if fam != 'gumbel' else 2.5
         c = B.make(fam, th)
@@ -258,8 +259,8 @@ def search(ctx, deep):
                 with np.errstate(all='ignore'):
                     whole = np.asarray(getattr(c, m)(X.copy()), dtype=float)
                     pieces = np.concatenate([np.asarray(getattr(c, m)(X[i:i + 61].copy()), dtype=float).ravel() for i in range(0, n, 61)])
-                if whole.shape != (n,) or not np.array_equal(whole, pieces, equal_nan=True):
-                    i = int(np.argmax(whole != pieces)) if whole.shape == pieces.shape else -1
+                if whole.shape != (n,) or not (whole.shape == pieces.shape and np.allclose(whole, pieces, rtol=1e-12, atol=1e-300, equal_nan=True)):
+                    i = int(np.argmax(~np.isclose(whole, pieces, rtol=1e-12, atol=1e-300, equal_nan=True))) if whole.shape == pieces.shape else -1
                     found += 1
                     ctx.fail_input(f'{fam}.{m}', {'theta': th, 'n': n, 'generator': 'RandomState(n).uniform(1e-3, 1-1e-3, (n,2))', 'row': i,
                                                  'row_values': X[i].tolist() if i >= 0 else None},
